@@ -379,6 +379,8 @@ def is_sym_array(x):
 
 
 def tosym(x):
+    if isinstance(x, np.ndarray) and x.ndim == 0:
+        x = x[()]
     s = Sym.lift(x)
     if s is None:
         raise TypeError('cannot lift %r' % (x,))
